@@ -175,3 +175,36 @@ def twin_programs():
                 rows = [[2, 3, 1], [0, -5, 2], [1, 2, 3]]
                 progs.append(Prog("twin/%d/%d/%d" % (t, n, deferred), "let x = %s;\nformat!(\"{:?}\", x)" % r, "let x = %s;\nformat!(\"{:?}\", x)" % d, rows, "Full", meta={"macro": "join", "dsl": d, "ref": r}))
     return progs
+
+
+def question_mark_programs():
+    """operands and initial values that END in the postfix `?` operator (inside a closure returning Option), followed by every kind of
+    thing that can follow an operand: an instant / deferred operator, a member access, the comma, a handler, the end"""
+    progs = []
+    rows = [[1, 2, 3], [0, 2, 3], [4, 0, 3], [5, 6, 0]]
+    cases = [
+        # (dsl body of the macro, reference expression)
+        ("opt(0)? -> |v: i32| { ev(\"0.0.f\", &v); v + 1 }, opt(1)?",
+         "((|v: i32| { ev(\"0.0.f\", &v); v + 1 })(opt(0)?), opt(1)?)"),
+        # (`? >.` would be the operator `?>` followed by `.`: white space is not part of a token stream — junction premise)
+        ("opt(0)? ..wrapping_add(7), opt(1)? ..wrapping_mul(2) ..wrapping_sub(1), opt(2)?",
+         "((opt(0)?).wrapping_add(7), (opt(1)?).wrapping_mul(2).wrapping_sub(1), opt(2)?)"),
+        ("Some(opt(0)?) |> |v: i32| v + 1 <| Some(opt(1)?) |> |v: i32| v * 2, Some(opt(2)?)",
+         "(Some(opt(0)?).map(|v: i32| v + 1).or(Some(opt(1)?)).map(|v: i32| v * 2), Some(opt(2)?))"),
+        ("opt(0)? ~-> |v: i32| { ev(\"0.1.f\", &v); v + 1 }, opt(1)? ~-> |v: i32| { ev(\"1.1.f\", &v); v * 2 }",
+         "{ let a = opt(0)?; let b = opt(1)?; let a = (|v: i32| { ev(\"0.1.f\", &v); v + 1 })(a); let b = (|v: i32| { ev(\"1.1.f\", &v); v * 2 })(b); (a, b) }"),
+        ("opt(0)?, opt(1)?, then => |a: i32, b: i32| a * 100 + b",
+         "{ let a = opt(0)?; let b = opt(1)?; a * 100 + b }"),
+        ("let p = opt(0)?, opt(1)? ~-> { let q = p; move |v: i32| v + q }",
+         "{ let p = opt(0)?; let b = opt(1)?; let c = { let q = p; move |v: i32| v + q }; (p, c(b)) }"),
+        ("Some(1) => |v: i32| Some(v + opt(0)?) ?? |o: &Option<i32>| { ev(\"0.0.q\", o); }, opt(1)?",
+         "({ let x = Some(1).and_then(|v: i32| Some(v + opt(0)?)); (|o: &Option<i32>| { ev(\"0.0.q\", o); })(&x); x }, opt(1)?)"),
+    ]
+    for ci, (body, ref) in enumerate(cases):
+        # (sequential macros only: inside a thread-spawning macro `?` would return from the branch's thread closure)
+        for mac in ("join",):
+            d = "%s! { %s }" % (mac, body)
+            mb = "let x = (|| -> Option<String> { let r = %s; Some(format!(\"{:?}\", r)) })();\nformat!(\"{:?}\", x)" % d
+            rb = "let x = (|| -> Option<String> { let r = %s; Some(format!(\"{:?}\", r)) })();\nformat!(\"{:?}\", x)" % ref
+            progs.append(Prog("qmark/%d/%s" % (ci, mac), rb, mb, rows, "Full" if mac == "join" else "Proj", meta={"macro": mac, "dsl": d, "ref": ref}))
+    return progs
